@@ -84,6 +84,8 @@ Constructs == {
   K("or", 2, <<"a", S, "||", S, "b">>),
   K("impl", 2, <<"a", S, "->", S, "b">>),
   K("chain_concat", 2, <<"a", S, "++", S, "b", S, "++", S, "c">>),
+  K("chain_concat_ml", 2, <<"a\n++", S, "b\n++", S, "c">>),
+  K("chain_update_ml", 2, <<"a\n//", S, "b\n//", S, "c\n//", S, "d">>),
   K("chain_mixed", 2, <<"a", S, "+", S, "b", S, "*", S, "c">>),
   K("chain_bool", 2, <<"a", S, "&&", S, "b", S, "||", S, "c">>),
   K("chain_update_call", 2, <<"a", S, "//", S, "f", S, "b">>),
